@@ -136,7 +136,7 @@ theorem rel_phase_ne (lk : Lock) : (relLock lk).phase ≠ .waiting := by
   simp only [relLock]; split <;> simp
 
 theorem wok_eff {cfg : Cfg} {s s' : State} (h1 : Inv1 cfg s) (h : WOK cfg.slotOf (wl s) s.locks)
-    (e : Eff cfg s s') : WOK cfg.slotOf (wl s') s'.locks := by
+    {o : Option LockId} (e : Eff cfg s o s') : WOK cfg.slotOf (wl s') s'.locks := by
   cases e with
   | gen ts keys hnd =>
     refine h.setLock ?_ ?_
@@ -219,7 +219,7 @@ theorem nodeOf_wait {cfg : Cfg} {s : State} {slotID : Nat} {k : Key}
   · next e => simp only [nodeOf, e]
   · rfl
 
-theorem wake_eff {cfg : Cfg} {s s' : State} (h1 : Inv1 cfg s) (h2 : Inv2 cfg s) (e : Eff cfg s s') :
+theorem wake_eff {cfg : Cfg} {s s' : State} (h1 : Inv1 cfg s) (h2 : Inv2 cfg s) {o : Option LockId} (e : Eff cfg s o s') :
     ∀ l lk k, s'.locks l = some lk → lk.phase = .waiting → lk.nextKey = some k →
       HasHolder cfg s' k ∨ HasWoken cfg s' k := by
   cases e with
